@@ -176,7 +176,7 @@ package nbhttp
 //@   assigns everything
 
 //@ func releaseResponse
-//@   props C11
+//@   props C11 C10
 //@   safety index slice nil div assert panic make
 //@   requires res != nil ==> ResOwn(res)
 //@   ensures res != nil ==> res.buffer == nil && res.bodyBuffer == nil
@@ -184,6 +184,8 @@ package nbhttp
 //@   ensures old(res != nil && res.bodyBuffer != nil) ==> !liveP[old(res.bodyBuffer)]
 //@   ensures gOut == old(gOut) && gCloses == old(gCloses) && gServed == old(gServed) && gExec == old(gExec) && (forall q int :: q != old(res.buffer) && q != old(res.bodyBuffer) ==> liveP[q] == old(liveP[q]))
 //@   assigns everything
+//@   note isolation (C10): a response object goes back to the pool with every field cleared, so the next request - on any connection - starts from a blank response (NewResponse sets only parser, request and header)
+//@   at before:Put#1 assert blank: res.Parser == nil && res.request == nil && res.status == "" && res.statusCode == 0 && res.header == nil && res.trailer == nil && res.trailerSize == 0 && res.buffer == nil && res.bodyBuffer == nil && res.contentLen == 0 && res.bodyWritten == 0 && !res.chunked && !res.chunkChecked && !res.headEncoded && !res.hasBody && !res.hijacked   // prop C10
 
 //@ func releaseRequest
 //@   trusted
